@@ -170,6 +170,56 @@ theorem mem_indexed (cand : List (Nat × Part K)) (t : Nat × Nat × Part K) :
     apply List.mem_zipIdx_iff_getElem?.mpr
     simp [h]
 
+theorem indexed_length (cand : List (Nat × Part K)) : (indexed cand).length = cand.length := by
+  simp [indexed]
+
+theorem indexed_getElem (cand : List (Nat × Part K)) (k : Nat) (hk : k < cand.length) :
+    (indexed cand)[k]'(by simpa [indexed] using hk) = (k, cand[k].1, cand[k].2) := by
+  simp [indexed]
+
+theorem mem_indexed_take (cand : List (Nat × Part K)) (n : Nat) (u : Nat × Nat × Part K) :
+    u ∈ (indexed cand).take n ↔ u ∈ indexed cand ∧ u.1 < n := by
+  rw [List.mem_take_iff_getElem]
+  constructor
+  · rintro ⟨k, hk, rfl⟩
+    have hk' : k < cand.length := by rw [indexed_length] at hk; omega
+    refine ⟨List.getElem_mem _, ?_⟩
+    rw [indexed_getElem cand k hk']; simp; omega
+  · rintro ⟨hm, hn⟩
+    obtain ⟨h, e1, e2⟩ := (mem_indexed cand u).mp hm
+    refine ⟨u.1, by rw [indexed_length]; omega, ?_⟩
+    rw [indexed_getElem cand u.1 h]
+    ext <;> simp [e1, e2]
+
+/-- membership in the DIRECT specification, by positions `i`, `j` in the candidate list -/
+theorem mem_directSpec (ring : List (GB K)) (cand : List (Nat × Part K)) (nInner : Nat)
+    (c : Coll (GB K)) :
+    c ∈ directSpec ring cand nInner ↔
+      ∃ gb ∈ ring, ∃ (i j : Nat) (hi : i < cand.length) (hj : j < cand.length),
+        j < nInner ∧ i ≠ j ∧ directHit (shiftGB gb cand[i].2) cand[i].2.r cand[j].2 = true ∧
+        c = ⟨(cand[i].1 : Int), (cand[j].1 : Int), gb⟩ := by
+  unfold directSpec directPairs
+  simp only [List.mem_flatMap, List.mem_filterMap]
+  constructor
+  · rintro ⟨gb, hgb, t, ht, u, hu, hc⟩
+    obtain ⟨hti, e1, e2⟩ := (mem_indexed cand t).mp ht
+    obtain ⟨hu1, hun⟩ := (mem_indexed_take cand nInner u).mp hu
+    obtain ⟨hui, f1, f2⟩ := (mem_indexed cand u).mp hu1
+    split at hc
+    · rename_i hcond
+      simp only [Bool.and_eq_true, bne_iff_ne, ne_eq] at hcond
+      refine ⟨gb, hgb, t.1, u.1, hti, hui, hun, hcond.1, ?_, ?_⟩
+      · rw [← e2, ← f2]; exact hcond.2
+      · rw [← e1, ← f1]; exact (Option.some.inj hc).symm
+    · cases hc
+  · rintro ⟨gb, hgb, i, j, hi, hj, hjn, hij, hh, hc⟩
+    refine ⟨gb, hgb, (i, cand[i].1, cand[i].2), (mem_indexed cand _).mpr ⟨hi, rfl, rfl⟩,
+      (j, cand[j].1, cand[j].2), (mem_indexed_take cand nInner _).mpr
+        ⟨(mem_indexed cand _).mpr ⟨hj, rfl, rfl⟩, hjn⟩, ?_⟩
+    have : ((i != j) && directHit (shiftGB gb cand[i].2) cand[i].2.r cand[j].2) = true := by
+      simp [hij, hh]
+    simp only [this, if_true, hc]
+
 end loops
 
 /-! ## shuffle -/
